@@ -444,13 +444,22 @@ class Interp:
         `<handler>::...::{closure#0}::promoted[N]` whose body is `_1 = const PATH; _0 = &_1`"""
         m = re.match(r'^<api::(\w+)::service as .*::promoted\[(\d+)\]$', c)
         if not m:
-            raise Unsupported('promoted constant ' + c)
-        keys = [k for k in self.prog.consts if k.startswith(m.group(1) + '::') and k.endswith('::promoted[%s]' % m.group(2))]
+            # any other promoted constant: the const item whose name ends with the same
+            # `function[::{closure#k}]::promoted[N]`
+            mt = re.search(r'::(\w+(?:::\{closure#\d+\})?::promoted\[\d+\])$', c)
+            keys = [k for k in self.prog.consts if mt and k.endswith('::' + mt.group(1))] if mt else []
+            if len(keys) != 1:
+                raise Unsupported('promoted constant ' + c)
+        else:
+            keys = [k for k in self.prog.consts if k.startswith(m.group(1) + '::') and k.endswith('::promoted[%s]' % m.group(2))]
         if len(keys) != 1:
             raise Unsupported('promoted constant %s: %d bodies' % (c, len(keys)))
         txt = self.prog.consts[keys[0]][1]
         mm = re.search(r'_1 = const (.+);', txt)
         if not mm:
+            mu = re.search(r'_1 = ([A-Z]\w*);', txt)
+            if mu and not self.prog.core_enums:
+                return Sym(mu.group(1))  # a unit struct (`&Utc`)
             me = re.search(r'_[01] = (?:[\w:]+::)?(\w+);', txt)
             if me:
                 owners = [(ty, t) for ty, t in self.prog.core_enums.items() if me.group(1) in t]
@@ -492,11 +501,18 @@ class Interp:
         if rv.startswith('[') and rv.endswith(']'):
             return Agg('array', 'array', 0, [self.operand(fr, a) for a in split_top(rv[1:-1])])
         if rv.startswith(('copy ', 'move ', 'const ')):
-            mc = re.match(r'^(.+) as ([\w:<>&\s\[\]\*]+) \((\w+)\)$', rv)
+            mc = re.match(r'^(.+?) as (.+) \((\w+)(\(.*\))?\)$', rv)
             if mc:
                 # casts: pointer coercions and integer widenings keep the value
                 if mc.group(3) in ('IntToInt', 'PointerCoercion', 'Transmute', 'PtrToPtr') or mc.group(3).startswith('PointerCoercion'):
-                    return self.operand(fr, mc.group(1))
+                    v = self.operand(fr, mc.group(1))
+                    if mc.group(3) == 'IntToInt' and isinstance(v, z3.BitVecRef):
+                        w = {'i64': 64, 'u64': 64, 'usize': 64, 'isize': 64, 'u32': 32, 'i32': 32, 'u16': 16, 'u8': 8}.get(mc.group(2).strip())
+                        if w and w > v.size():
+                            return z3.ZeroExt(w - v.size(), v)
+                        if w and w < v.size():
+                            return z3.Extract(w - 1, 0, v)
+                    return v
                 raise Unsupported('cast ' + rv)
             return self.operand(fr, rv)
         m = re.match(r'^\((.*)\)$', rv)
@@ -513,6 +529,10 @@ class Interp:
                 return Agg(ty, var, table[var], args)
         if re.match(r'^[A-Z]\w*$', rv):
             return Sym(rv)  # unit struct (RangeFull ...)
+        mts = re.match(r'^([A-Z]\w*)\((.*)\)$', rv)
+        if mts and not mts.group(1) in ('Gt', 'Ge', 'Lt', 'Le', 'Eq', 'Ne', 'Add', 'Sub', 'Not', 'BitAnd', 'BitOr', 'Mul', 'Div', 'Rem', 'Shl', 'Shr', 'Neg', 'Len', 'Cast'):
+            # tuple struct constructor: StoredUuid(copy _2)
+            return Agg(mts.group(1), mts.group(1), 0, [self.operand(fr, a) for a in split_top(mts.group(2))])
         if re.match(r'^log::(Level|LevelFilter)::\w+$', rv) or re.match(r'^log::__private_api::\w+$', rv):
             return Sym(rv)  # logging is environment without effect
         mco = re.match(r'^\{coroutine@[^}]*\}(?: \{ (.*) \})?$', rv)
@@ -700,6 +720,21 @@ class Interp:
             for arm in m.group(2).split(','):
                 k, tgt = [x.strip() for x in arm.split(':')]
                 arms.append((k, tgt))
+            if isinstance(v, z3.BitVecRef):
+                # a machine integer: one solver-pruned decision per arm, in order
+                chosen = None
+                for kk, tgt in arms:
+                    if kk == 'otherwise':
+                        continue
+                    b = self.branch_on(st, v == z3.BitVecVal(int(kk), v.size()), '%s == %s' % (v, kk))
+                    if b:
+                        chosen = tgt
+                        break
+                if chosen is None:
+                    for kk, tgt in arms:
+                        if kk == 'otherwise':
+                            chosen = tgt
+                return chosen or 'DEAD'
             if isinstance(v, z3.ExprRef):
                 if not z3.is_bool(v):
                     raise Unsupported('switch on symbolic integer')
@@ -804,6 +839,21 @@ def run_stack_patch():
                 elif dest[0] == 'cont':
                     self.cell_of(fr2, dest[1]).v = dest[2](rv)
                 elif dest[0] == 'filter_keep':
+                    if isinstance(rv, z3.ExprRef):
+                        # a symbolic predicate: decided here (no re-execution is involved: the callee
+                        # has returned), both outcomes continue
+                        t = self.feasible(st.cons + [rv])
+                        f = self.feasible(st.cons + [z3.Not(rv)])
+                        if t and f:
+                            st2, stack2, fr3 = copy.deepcopy((st, stack, fr2))
+                            st2.cons = st2.cons + [z3.Not(rv)]
+                            self.cell_of(fr3, dest[1]).v = NONE()
+                            stack2.append((func2, fr3, ret_bb, 0))
+                            work.append((st2, stack2))
+                            st.cons = st.cons + [rv]
+                            rv = True
+                        else:
+                            rv = bool(t)
                     self.cell_of(fr2, dest[1]).v = dest[2] if rv is True else NONE()
                 else:
                     self.cell_of(fr2, dest).v = rv
